@@ -131,6 +131,15 @@ theorem capWitness_cut (cap : Nat) : rootTotal (mergeTrieCap cap [] 0 (capWitnes
   simp only [List.nil_append, Nat.sub_zero]
   rw [capWitness_take _ _ (by omega), capWitness_rootTotal]
 
+theorem capWitness_breaks (cap : Nat) :
+    rootTotal (mergeTrieCap cap [] 0 (capWitness (cap + 1)))
+      ≠ fsum (capWitness (cap + 1)) (fun r => decide (r.parent = 0)) (·.total) := by
+  rw [capWitness_cut]
+  have h2 : fsum (capWitness (cap + 1)) (fun r => decide (r.parent = 0)) (·.total) = ((cap + 1 : Nat) : Int) :=
+    capWitness_rootTotal _
+  rw [h2]
+  omega
+
 theorem children_take_drop (R : List Row) (n x : Nat) :
     sumTotals (children R x) = sumTotals (children (R.take n) x) + sumTotals (children (R.drop n) x) := by
   conv => lhs; rw [← List.take_append_drop n R]
@@ -260,7 +269,7 @@ theorem firstIdx_spec (names : List String) (name : String) :
   | nil => simp
   | cons x xs ih =>
     by_cases hx : x = name
-    · subst hx; simp [List.idxOf_cons]
+    · subst hx; simp
     · obtain ⟨h1, h2, h3⟩ := ih
       have hne : (x == name) = false := by simpa using hx
       refine ⟨?_, ?_, ?_⟩
